@@ -56,6 +56,10 @@ func (u *Universe) frameObligations(prop string) []FrameResult {
 	if want("C16", "C12") {
 		add(u.groundGlobalInit("nameBase64", "base64.URLEncoding.WithPadding(base64.NoPadding)", []string{"C16", "C12"}))
 	}
+	if want("C05", "C09") {
+		add(u.groundNonEmptyGlobal("internal/literals", "Obfuscators", []string{"C05", "C09"}))
+		add(u.groundNonEmptyGlobal("internal/literals", "CheapObfuscators", []string{"C05", "C09"}))
+	}
 	if want("C10") {
 		add(u.frameTiny()...)
 	}
